@@ -27,7 +27,7 @@ CHECKS.update({
                     "5-value lattice (lists and ndarrays) is checked for the documented exception class, its payload and the documented "
                     "order of checks (exhaustive on that lattice; 3-parameter sub-lattice in the thorough tier); random specs with 1-6 "
                     "parameters check the grid against an exact-rational end-point rule.",
-            "note": "exhaustive only over the stated lattice; huge well-formed grids (>5e6 points) are not constructed."},
+            "note": "exhaustive only over the stated lattice; huge well-formed grids (>5e6 points per parameter) are not constructed; random specs include > 2^63-point spaces and integer-typed inputs."},
     "C19": {"category": "exploration", "technique": PBT + " of operation histories against a reference model and a twin agent",
             "text": "Histories of policy/learn/reseed on MABEpsilonGreedy are compared step by step with a reference implementation of the "
                     "incremental update rule and with a twin agent (determinism); reward sequences on MABCalibrationEnv are compared "
@@ -83,7 +83,7 @@ CHECKS.update({
             "note": "round-robin schedulers only for replacement."},
     "C01": {"category": "exploration", "technique": PBT + " differential: variants of one configuration (n_jobs 1/2/4, verbose, saving folder, constructor seeds) must agree bit for bit",
             "text": "Generated configurations over all nine samplers, both scheduler kinds and the five losses; three variants from "
-                    "fresh objects per configuration; all five history arrays and the return value are compared byte-wise. The RL + "
+                    "fresh objects per configuration (one configuration in ten additionally in a fresh interpreter under another hash seed); all five history arrays and the return value are compared byte-wise; an exception is an outcome all variants must share. The RL + "
                     "saving-folder crash is a listed known finding; everything else must agree.",
             "note": "determinism of sklearn/xgboost/scipy on this machine is assumed; 3 variants per configuration."},
     "C04": {"category": "exploration", "technique": PBT + " of operation histories (new run in fresh/used folder, calibrate, checkpoint, restore) with a save->restore round-trip oracle over a canonical snapshot",
